@@ -565,6 +565,11 @@ def _special_cases():
     for pairs in (256, 4096):
         for has_parent in (0, 1):
             out.append({"kind": "special", "what": "vhdx-locator-overlapping-strings", "pairs": pairs, "has_parent": has_parent})
+    # the same with the length of the metadata region (a field of the region table) raised to its maximum
+    out.append({"kind": "special", "what": "vhdx-locator-overlapping-strings", "pairs": 4096, "has_parent": 0, "region_length": 0xFFFFFFFF})
+    # key tables at distinct, overlapping offsets (one alignment step apart), each as large as the rest of the file
+    for refs in (50, 200):
+        out.append({"kind": "special", "what": "hyperv-object-fanout", "refs": refs, "type": "key-table-overlapping"})
     for where in ("first", "middle", "last", "only"):
         for how in ("handles", "descriptor"):
             out.append({"kind": "special", "what": "vmdk-zero-sector-extent", "where": where, "how": how})
@@ -1261,6 +1266,11 @@ def _run_special(case, ctx):
         ents = [(6, 0x8000, 0x1000, 1)] + [((2, 0x20000, tsize, 1) if typ == "key-table" else (6, 0x8000, 0x1000, 1))] * refs
         if typ == "replay-log":
             ents.append((2, 0x20000, tsize, 1))
+        big = None
+        if typ == "key-table-overlapping":
+            # table j starts j x 0x1000 into one 2 MiB area and claims everything up to the end of the file
+            big = 2 << 20
+            ents = [(6, 0x8000, 0x1000, 1)] + [(2, 0x20000 + 0x1000 * j, big - 0x1000 * j, 1) for j in range(refs)]
         ot = BHV.objtable(ents, n=len(ents) + 2)
         assert 0x2000 + len(ot) <= 0x8000
         buf[0x2000:0x2000 + len(ot)] = ot
@@ -1268,6 +1278,14 @@ def _run_special(case, ctx):
         ent = struct.pack(BHV.ENT, BHV.T_FREE, 21, 0, 0, 0, 0, 0)
         body += ent * ((tsize - len(body)) // len(ent) - 1)
         raw = bytes(buf) + body.ljust(tsize, b"\0")
+        if big:
+            area = bytearray(big)
+            for j in range(refs):
+                # a table header + one free entry that spans the rest of this table's 4 KiB step, then the next table begins
+                hdr_ = struct.pack("<HHHI", 2, j + 1, 5, 0) + struct.pack(BHV.ENT, BHV.T_FREE, 0x1000 - 10, 0, 0, 0, 0, 0)
+                area[0x1000 * j:0x1000 * j + len(hdr_)] = hdr_
+            raw = bytes(buf) + bytes(area)
+            return _execute(ctx, case, None, raw, subject, drv_hyperv, {}, len(raw))
         return _execute(ctx, case, None, raw, subject, drv_hyperv, {}, (len(raw) // 21) * 512)
     if what == "vhdx-locator-overlapping-strings":
         # a parent locator whose entries all point into one text area (strings 2 bytes apart, 65534 bytes long each): what is
@@ -1290,6 +1308,12 @@ def _run_special(case, ctx):
             raw += bytes(need - len(raw))
         text = "".join(f"{i:06x}-" for i in range(area // 14 + 1)).encode("utf-16-le")[:area]  # no two offsets read alike
         raw[loc + text_at:loc + text_at + area] = text
+        if case.get("region_length"):
+            for nm in ("regi1", "regi2"):
+                for i_ in range(2):
+                    g_ = [f for f in img.fields if f[0] == f"{nm}.entry{i_}.guid"][0][1]
+                    if bytes(raw[g_:g_ + 16]) == BX.G("8B7CA206-4790-4B9A-B8FE-575F050F886E"):
+                        struct.pack_into("<I", raw, [f for f in img.fields if f[0] == f"{nm}.entry{i_}.length"][0][1], case["region_length"])
         if not case["has_parent"]:
             fp = [f for f in img.fields if f[0] == "file_parameters.flags"]
             if fp:
